@@ -36,6 +36,7 @@ RULE += (" " + 'A quarter of the cases first converts a rule from another log so
 RULE += (" Values include long strings (40-75 characters) with 17-33 matches of every replacement pattern, long camel-case runs and long paths.")
 RULE += (" Items also carry the cased modifier (alone and with contains).")
 RULE += (" Hashes items also carry contains, all and neq.")
+RULE += (" Items with the windash modifier take part: the values of the expansion are transformed one by one.")
 ASSUMPTIONS = [
     "the rewrite engine in vf/props/c12.py states the documented meaning of each transformation",
     "negated items under one-to-many mappings, case-sensitive strings under value transformations and "
@@ -229,6 +230,8 @@ def value_transform(t, v):
                 raise ExpectFail("not finite")
             return [("num", int(n) if n == int(n) else n)]
         return [v]
+    if k == "exp":  # the values inside an expansion (windash) are transformed one by one, the expansion stays
+        return [("exp", [y for x in v[1] for y in value_transform(t, x)])]
     if k == "num" and ty == "replace_string" and re.search(t["regex"], str(v[1])):
         raise rm.Ambiguous("replace_string matching a number: result type not documented")
     if k != "str":
@@ -511,7 +514,9 @@ def _norm(sig: str) -> str:
     if sig.endswith("replace_string:number-becomes-string"):
         return "C12:replace_string:number-becomes-string"
     if sig.endswith(":plain-backslash"):
-        return "C12:plain-backslash"
+        # the identity instance (nothing matches) was repaired in the repo and has its own signature: the open
+        # finding covers only replacements that do match
+        return "C12:identity-changed:plain-backslash" if sig.startswith("C12:identity-changed:") else "C12:plain-backslash"
     return sig
 
 
@@ -567,7 +572,9 @@ def docs(draw, hashes=False, placeholders=False):
 
     def key_value():
         f = draw(st.sampled_from(FIELDS))
-        mod = draw(st.sampled_from(["", "", "|contains", "|startswith", "|endswith", "|contains|all", "|re", "|fieldref", "|neq", "|cased", "|contains|cased"]))
+        mod = draw(st.sampled_from(["", "", "|contains", "|startswith", "|endswith", "|contains|all", "|re", "|fieldref", "|neq", "|cased", "|contains|cased", "|windash", "|windash|contains"]))
+        if mod.startswith("|windash"):  # values expanded by a modifier are values like any other
+            return f + mod, draw(st.sampled_from(["-abc", "a -b", "/x -y", "Ab-c -D", "abc"]))
         if mod == "|re":
             return f + mod, draw(st.sampled_from(["a.*b", "^x", "a|b"]))
         if mod == "|fieldref":
